@@ -11,16 +11,52 @@ using namespace llbuild; using namespace llbuild::basic; using namespace llbuild
 #ifndef VF_CASE
 #define VF_CASE 0
 #endif
+#ifndef VF_PK
+#define VF_PK 0
+#endif
 #ifndef VF_K
 #define VF_K 2
 #endif
+#include "llbuild/BuildSystem/BuildFile.h"
+#include "llbuild/BuildSystem/BuildDescription.h"
+#include "llbuild/BuildSystem/Tool.h"
+#include "llbuild/Basic/ExecutionQueue.h"
+static int g_started = 0, g_finished = 0, g_finishedStatus = -1;
+struct HDel : public BuildSystemDelegate {
+  HDel() : BuildSystemDelegate("h", 0) {}
+  void setFileContentsBeingParsed(StringRef) override {}
+  void error(StringRef, const Token&, const Twine&) override {}
+  std::unique_ptr<Tool> lookupTool(StringRef) override { return nullptr; }
+  std::unique_ptr<ExecutionQueue> createExecutionQueue() override { return nullptr; }
+  void hadCommandFailure() override {}
+  void commandStatusChanged(Command*, CommandStatusKind) override {}
+  void commandPreparing(Command*) override {}
+  bool shouldCommandStart(Command*) override { return true; }
+  void commandStarted(Command*) override { g_started++; }
+  void commandHadError(Command*, StringRef) override {}
+  void commandHadNote(Command*, StringRef) override {}
+  void commandHadWarning(Command*, StringRef) override {}
+  void commandFinished(Command*, ProcessStatus st) override { g_finished++; g_finishedStatus = (int)st; }
+  void commandFoundDiscoveredDependency(Command*, StringRef, DiscoveredDependencyKind) override {}
+  void commandCannotBuildOutputDueToMissingInputs(Command*, Node*, ArrayRef<BuildKey>) override {}
+  Command* chooseCommandFromMultipleProducers(Node*, std::vector<Command*>) override { return nullptr; }
+  void cannotBuildNodeDueToMultipleProducers(Node*, std::vector<Command*>) override {}
+  void determinedRuleNeedsToRun(core::Rule*, core::Rule::RunReason, core::Rule*) override {}
+};
+static HDel* g_del;
+extern "C" BuildSystemDelegate* stub_getDelegate(BuildSystem*) { return g_del; }
+static int g_ran = 0, g_procStatus = -1;
 struct HCmd : public ExternalCommand {
   HCmd(StringRef n) : ExternalCommand(n) {}
   void getShortDescription(SmallVectorImpl<char>&) const override {}
   void getVerboseDescription(SmallVectorImpl<char>&) const override {}
   void startExternalCommand(BuildSystem&, core::TaskInterface) override {}
   void provideValueExternalCommand(BuildSystem&, core::TaskInterface, uintptr_t, const BuildValue&) override {}
-  void executeExternalCommand(BuildSystem&, core::TaskInterface, QueueJobContext*, llvm::Optional<ProcessCompletionFn>) override {}
+  void executeExternalCommand(BuildSystem&, core::TaskInterface, QueueJobContext*, llvm::Optional<ProcessCompletionFn> fn) override {
+    g_ran++;
+    // the process ends as a success, a failure or a cancellation (the only statuses a finished process has); its completion handler runs
+    if (fn.hasValue()) { uint8_t st = nondet_u8(); VF_ASSUME(st < 3); g_procStatus = st; ProcessResult r; r.status = (ProcessStatus)st; (*fn)(r); }
+  }
 };
 // arbitrary file system: the info reported for output i is g_cur[i]
 static FileInfo g_cur[3]; static std::string* g_names[3]; static int g_fsCalls = 0;
@@ -36,6 +72,9 @@ struct HFS : public FileSystem {
 };
 static HFS* g_fs;
 extern "C" FileSystem* stub_getFileSystem(BuildSystem* s) { return g_fs; }
+struct SR { const char* p; size_t n; };
+extern "C" SR stub_parent_path(const char*, size_t, int) { SR r = { "", 0 }; return r; }      // outputs of the harness live in the working directory: nothing to create
+static int g_results = 0, g_resKind = -1; static bool g_resSuccessful = false; static unsigned g_resN = 0; static FileInfo g_resInfo[3];
 static void fill(FileInfo& a) {
   a.device = nondet_u64(); a.inode = nondet_u64(); a.mode = nondet_u64(); a.size = nondet_u64(); a.modTime.seconds = nondet_u64(); a.modTime.nanoseconds = nondet_u64();
   for (int i = 0; i < 32; i++) a.checksum.bytes[i] = 0;
@@ -130,6 +169,35 @@ extern "C" void harness_extcmd(void) {
   vf_observe(cmd.skipValue.hasValue());
   VF_ASSERT(cmd.skipValue.hasValue() == bad, "the command is marked to be skipped exactly when some input failed or a required input is missing - whatever is delivered afterwards");
   if (bad) VF_ASSERT(cmd.skipValue->isPropagatedFailureCommand(), "the skip value is a propagated failure");
+#elif VF_CASE == 4
+  // ---- execute(): run, or (allow-modified-outputs) bring up to date without running - never on the strength of a failed or cancelled prior result
+  HCmd& cmd = *new HCmd("c"); cmd.outputs.reserve(4);
+  bool virt[3]; bool anyGone = false;
+  for (unsigned i = 0; i < K; i++) { virt[i] = nondet_bool(); cmd.outputs.push_back(mkNode(i, virt[i], false, false)); fill(g_cur[i]); if (nondet_bool()) memset(&g_cur[i], 0, sizeof(FileInfo)); if (virt[i] || missing(g_cur[i])) anyGone = true; }
+  cmd.allowModifiedOutputs = nondet_bool(); cmd.skipValue = llvm::None;
+  bool inputGone = nondet_bool(); cmd.canUpdateIfNewer = !inputGone;        // (provideValue clears it when an input reports a missing output - F2's subject)
+  core::TaskInterface ti(nullptr, nullptr);
+#if VF_PK < 5
+  { FileInfo fi; fill(fi);
+    BuildValue& prior = *new BuildValue(VF_PK == 0 ? BuildValue::makeSuccessfulCommand(llvm::ArrayRef<FileInfo>(&fi, 1)) : VF_PK == 1 ? BuildValue::makeFailedCommand() : VF_PK == 2 ? BuildValue::makePropagatedFailureCommand()
+                                        : VF_PK == 3 ? BuildValue::makeCancelledCommand() : BuildValue::makeSkippedCommand());
+    cmd.providePriorValue(*sys, ti, prior); }
+#endif
+  g_del = new HDel;
+  cmd.execute(*sys, ti, nullptr, [](BuildValue&& v) { g_results++; g_resSuccessful = v.isSuccessfulCommand(); g_resKind = v.isSuccessfulCommand() ? 0 : v.isFailedCommand() ? 1 : v.isCancelledCommand() ? 2 : 9;
+                                                     if (v.isSuccessfulCommand()) { g_resN = v.getNumOutputs(); for (unsigned i = 0; i < v.getNumOutputs() && i < 3; i++) g_resInfo[i] = v.getNthOutputInfo(i); } });
+  vf_observe(g_ran); vf_observe(g_results);
+  VF_ASSERT(g_ran <= 1 && g_results == 1, "the command runs at most once and reports exactly one result");
+  bool updated = g_ran == 0;
+  if (updated) VF_ASSERT(g_resSuccessful && VF_PK == 0 && cmd.allowModifiedOutputs && !inputGone && !anyGone && g_started == 0, "a command is brought up to date without running only when it may have modified outputs, its previous result was a success, and every output exists");
+  if (VF_PK != 0) VF_ASSERT(g_ran == 1, "a command whose recorded result is a failure, a cancellation or a skip (or that has none) is run again");
+  if (!cmd.allowModifiedOutputs || inputGone || anyGone) VF_ASSERT(g_ran == 1, "a command with a missing output, or that must not keep modified outputs, is run");
+  if (g_ran == 1) {
+    VF_ASSERT(g_started == 1 && g_finished == 1 && g_finishedStatus == g_procStatus, "the client sees the command start and finish with the process's status");
+    VF_ASSERT(g_resKind == g_procStatus, "the recorded result is a success, a failure or a cancellation exactly as the process ended (a failed or cancelled command never records a success)");
+    VF_WITNESS_ALSO("command ran");
+  }
+  if (g_resSuccessful) { VF_ASSERT(g_resN == K, "a success records one file record per output"); for (unsigned i = 0; i < K; i++) if (!virt[i]) VF_ASSERT(same(g_resInfo[i], g_cur[i]) && g_resInfo[i].mode == g_cur[i].mode, "...describing the output as it is now"); }
 #else
   Def& A = *new Def; Def& B = *new Def; pickDef(A, VF_AI, VF_AO); pickDef(B, VF_BI, VF_BO);
 #ifdef VF_EXCLUDE_LIST_BOUNDARY
